@@ -2288,6 +2288,10 @@ func (fv *FuncVerifier) checkAssertsInit() {
 		}
 		if a := findAnchorStmt(fv.prog.fset, fv.fd.decl, ab.Anchor); a != nil {
 			fv.anchorStmts[a] = append(fv.anchorStmts[a], i)
+		} else if fv.entry != nil {
+			// the statement the clause was attached to is gone: the code under contract changed in a
+			// way the contract cannot follow. Reported as a failed obligation, not as a tool error.
+			fv.oblige(fv.entry.clone(), "anchor", fmt.Sprint(i), boolT(false), fv.fd.decl.Pos(), fmt.Sprintf("the statement `%s` this clause is anchored at is still present in the function", ab.Anchor))
 		} else {
 			reject("assert anchor %q not found in %s", ab.Anchor, fv.name)
 		}
